@@ -17,6 +17,7 @@ from typing import Any
 from .. import leanio
 from ..core import Ctx, load_corpus
 from . import sim_c07
+from . import x01_reactor
 
 ID = "C07"
 LEVEL = "proof"
@@ -78,6 +79,10 @@ THEOREMS = [("Kopf.Props.C07", "Kopf.C07." + n) for n in [
     "noop_patch_does_not_arm", "noop_cycle_leaves_consistent", "noop_stall_regression_witness",
     "version_test_is_equality", "barrier_view_sound_test_partial", "string_order_unsound_witness",
     "string_order_breaks_barrier_witness", "string_order_is_numeric_same_width"]]
+# the composed reactor (C03 loop + C07 barrier + C08 version test; the versions are GENERATED by the model, not fed):
+# no_stale_handling is this property's barrier clause over every history of the composed system (Kopf/Props/X01*.lean)
+THEOREMS += x01_reactor.THEOREMS
+DRIVER_MODULES = ["C07", "X01"]
 RULE = ("seeded whole-operator scenarios: T in {0, 0.25, 1, 5} s; request latency 1-64 ticks, response latency 0-48 ticks; echo delay of "
         "own writes in {0, < T, = T after the patch, = exactly the worker's deadline, > T}; foreign-event delay and jitter; 0-5 foreign "
         "edits before and 0-5 after each chosen own write (reactive offsets), slips right before a PATCH (422 -> remaining patch); create/"
@@ -1102,6 +1107,9 @@ def run(ctx: Ctx) -> None:
         evaluate(ctx, part, sim_c07.run_many(part, wall=40.0, tie=True))
     ctx.count("scenarios", "run", len(scenarios))
     ctx.extra["strength"] = STRENGTH
+    # composition tie: the same kind of whole-operator histories replayed worker iteration by worker iteration through the
+    # composed Lean step X01.work, where the versions are generated by the model itself (a different random stream than C03's)
+    x01_reactor.run_reactor(ctx, n=ctx.budget(24, 600))
 
 
 def search(ctx: Ctx, broken: list) -> None:
